@@ -395,8 +395,27 @@ def sum_of(eng, p, x):
     raise Unsupported('sum over symbolic list')
 
 
+stable_sort = Function('stable_sort', ValSeq, Val, BoolSort(), ValSeq)     # sorted(xs, key=k, reverse=r): trusted to be a stable sort
+
+
 def sorted_of(eng, p, args, kws):
-    raise Unsupported('sorted')
+    """builtins.sorted(iterable, key=None, reverse=False): a NEW list holding stable_sort(items, key, reverse); the call is logged"""
+    from .world import trusted
+    from .contracts.base import items_of
+    trusted('builtins.sorted: returns a new list, a stable sort of the items by key (descending, still stable, with reverse=True)')
+    if len(args) != 1 or set(kws) - {'key', 'reverse'}:
+        raise Unsupported('sorted() call shape')
+    x = args[0]
+    if isinstance(x, SVal): xs = items_of(x.t)
+    elif isinstance(x, Ref) and p.heap[x.oid][0] in ('slist', 'deque'): xs = p.heap[x.oid][1]
+    else: raise Unsupported(f'sorted({x!r})')
+    key = kws.get('key')
+    ktag = V.VNone if key is None else eng.to_val(p, key)
+    rev = kws.get('reverse', False)
+    rv = BoolVal(rev) if isinstance(rev, bool) else (rev.t if isinstance(rev, SBool) else None)
+    if rv is None: raise Unsupported('sorted(reverse=<non-bool>)')
+    p.calls.append(('builtins.sorted', (xs, ktag, rv)))
+    return [(p, eng.new_obj(p, 'slist', ('slist', stable_sort(xs, ktag, rv), 'val')))]
 
 
 # ---- containers reached through a dynamic value (a reference read back from the store, or an argument)
